@@ -145,6 +145,19 @@ PROPS = {
         "level_text": "Lean theorems C06_step / C06_history / C06_terminates: for every byte string, every prior contents of the reused decoder structs and every sequence of frames, the three processors never reach a panic, emit at most one record per frame, and emit it only if the frame itself contains the flat, offset-defined header chain of Spec/Frame.lean (version 4, IHL/lengths consistent, well-delimited options, unfragmented; ARP 1/0x0800/6/4) with every record field read from that frame. Tied to the code by histories of structurally generated and malformed frames through the real ScanMethod.ProcessPacketData.",
         "level_note": "Trusted: Lean kernel; the gopacket decoder model is validated differentially (1.5k histories quick / 25k thorough), not proved.",
     },
+    "C11": {
+        "modules": ["SxVerif.Props.C11"],
+        "components": ["arpcache"],
+        "trusted_base": [
+            "modelled, not verified: net.IP.String / HardwareAddr.String for 4/6-byte values, net.ParseIP for colon-free text and the ::ffff:a.b.c.d spelling (go1.23 parseIPv4Fields), net.ParseMAC (all three textual forms), bufio.Scanner line splitting (lines below 64 KiB), easyjson's jlexer for arp.ScanResult as the RFC 8259 reader of Spec/Json plus the decoder loop (string-typed ip/mac/vendor, null skipped, unknown keys skipped, repeated key overwrites) — Model/ArpCache.lean; validated on every run through the real ARP processor, encoder, FillCache and cache request generator",
+            "other IPv6 text in a cache file and 8/20-byte MACs are outside the model (never printed by the ARP scan); jlexer's leniency on malformed JSON (e.g. trailing commas) is not modelled: the harness's malformed lines are non-objects and truncated objects",
+            "cache writers regenerated from the tree by sxfacts (Generated/ArpCacheFacts.lean); cacheReqGenerator model shared with C13 (Model/Gen.lean)",
+        ],
+        "assumptions": ["sync.RWMutex meets its contract (concurrent Gets of an unchanging map return the stored value)",
+                        "the vendor table lookup returns some string (any bytes allowed)"],
+        "level_text": "Lean theorems C11_ip_roundtrip / C11_mac_roundtrip (dotted-quad and MAC rendering parse back for all 2^32 / 2^48 values, by structure of the digit rendering), C11_line_loads (the line printed for any ARP reply, with any vendor string, is accepted by the loader and yields exactly {printed address -> printed MAC}; built on C14's ARP-line theorem), C11_load_in_order / C11_last_wins (either spelling), C11_unknown_fields_skipped, C11_stage_choice / C11_never_foreign_mac (own entry, else gateway, else error; error requests untouched) and C11_cache_immutable_during_scan over writer facts regenerated from the tree. Tied to the code by ARP replies through the real processor -> real MarshalJSON -> real FillCache -> real NewCacheRequestGenerator, and by random cache files with duplicates, ::ffff: spellings, extra/null/repeated fields and malformed addresses.",
+        "level_note": "Trusted: Lean kernel; the stdlib parser/printer models and the jlexer abstraction are validated differentially, not proved; concurrency is reduced to immutability of the cache after option parsing (generated fact) plus the RWMutex contract; -race run not included.",
+    },
     "C14": {
         "modules": ["SxVerif.Props.C14"],
         "components": ["json"],
